@@ -119,7 +119,20 @@ func cachePrefix(name string) string { return "verif://" + cacheDir + "/" + name
 
 var progCounters = []metrics.Counter{metrics.NewCounter(), metrics.NewCounter(), metrics.NewCounter()}
 
+// mapSrc is the argument of a Map: with a function name "p…" it is Prefixed(src, 2) (and the function is the one named
+// by the rest); with "q…" it is Prefixed(src, 1).
+func (e *progEnv) mapSrc(tok, fn string) bigslice.Slice {
+	if strings.HasPrefix(fn, "p") {
+		return bigslice.Prefixed(e.ref(tok), 2)
+	}
+	if strings.HasPrefix(fn, "q") {
+		return bigslice.Prefixed(e.ref(tok), 1)
+	}
+	return e.ref(tok)
+}
+
 func mapFn(name string) func(k, v int64) (int64, int64) {
+	name = strings.TrimPrefix(strings.TrimPrefix(name, "p"), "q")
 	switch {
 	case name == "inc":
 		return func(k, v int64) (int64, int64) { return k + 1, v * 2 }
@@ -239,14 +252,14 @@ func (e *progEnv) build(name string, op []string) bigslice.Slice {
 	case "map":
 		if ft := faultFor(e.run, name); ft != nil {
 			fn := mapFn(op[2])
-			return bigslice.Map(e.ref(op[1]), func(k, v int64) (int64, int64) { ft.maybePanic(); return fn(k, v) })
+			return bigslice.Map(e.mapSrc(op[1], op[2]), func(k, v int64) (int64, int64) { ft.maybePanic(); return fn(k, v) })
 		}
-		return bigslice.Map(e.ref(op[1]), mapFn(op[2]))
+		return bigslice.Map(e.mapSrc(op[1], op[2]), mapFn(op[2]))
 	case "mapc":
 		// a Map whose calls are counted (C13: was the upstream of a cached shard executed?)
 		fn := mapFn(op[2])
 		ftc := faultFor(e.run, name)
-		return bigslice.Map(e.ref(op[1]), func(k, v int64) (int64, int64) {
+		return bigslice.Map(e.mapSrc(op[1], op[2]), func(k, v int64) (int64, int64) {
 			fx.mu.Lock()
 			fx.calls[name]++
 			fx.mu.Unlock()
@@ -260,11 +273,11 @@ func (e *progEnv) build(name string, op []string) bigslice.Slice {
 	case "readcache":
 		return bigslice.ReadCache(context.Background(), typ2, atoi(op[1]), cachePrefix(op[2]))
 	case "mapm":
-		return bigslice.Map(e.ref(op[1]), mapFn(op[2]), bigslice.ExperimentalMaterialize)
+		return bigslice.Map(e.mapSrc(op[1], op[2]), mapFn(op[2]), bigslice.ExperimentalMaterialize)
 	case "mapp":
-		return bigslice.Map(e.ref(op[1]), mapFn(op[2]), bigslice.Procs(atoi(op[3])))
+		return bigslice.Map(e.mapSrc(op[1], op[2]), mapFn(op[2]), bigslice.Procs(atoi(op[3])))
 	case "mapx":
-		return bigslice.Map(e.ref(op[1]), mapFn(op[2]), bigslice.Exclusive)
+		return bigslice.Map(e.mapSrc(op[1], op[2]), mapFn(op[2]), bigslice.Exclusive)
 	case "count", "countm":
 		c := progCounters[atoi(op[2])]
 		var opts []bigslice.Pragma
